@@ -473,7 +473,7 @@ def build_extra():
     c08.pid = "C09d"
     c08.replay_pid = "C08"
     c08.only_verify = ["DriverLight.set_brightness"]
-    return [C, schedule_update_set(), stack_target_set(), c08, fast_led_set(), brightness_setting_set()]
+    return [C, schedule_update_set(), stack_target_set(), c08, fast_led_set(), brightness_setting_set(), below_set()]
 
 
 FLED = "mpf/platforms/fast/fast_led.py"
@@ -717,6 +717,72 @@ def schedule_update_set():
     C.assume("brightness / colour correction are applied to start and target colour alike and are modelled as the "
              "identity; the skip of unchanged fade targets (_last_fade_target) is not covered (first update only)")
     C.only_verify = ["Light._schedule_update"]
+    return C
+
+
+def below_set():
+    """Light.get_color_below: the colour a new command fades in FROM is the colour of the stack beneath it in the stack's own
+    order (priority first, key second) - not of some other layer, and not black while a lower layer exists"""
+    C = ContractSet("C09g", "the colour beneath a stack position")
+    C.strings = False
+    NL = 3
+    C.cls("SystemWideDevice", fields={})
+    C.cls("DevicePositionMixin", fields={})
+    C.cls("ColorV", fields={})
+    C.cls("LightStackEntry", fields=dict(priority=Int, key=Int))
+
+    def stack(I, name):
+        ents = [I.fresh(ObjS("LightStackEntry"), "%s[%d]" % (name, i)) for i in range(I.ctx.fork(NL + 1))]
+        # S1 (proved for every stack operation in the main set): sorted by (priority, key), highest first, keys unique
+        for a, b in zip(ents, ents[1:]):
+            pa, pb = I.force(I.read_field(a.ref, "priority")).t, I.force(I.read_field(b.ref, "priority")).t
+            ka, kb = I.force(I.read_field(a.ref, "key")).t, I.force(I.read_field(b.ref, "key")).t
+            I.ctx.assume(z3.Or(pa > pb, z3.And(pa == pb, kb < ka)))
+        I.__dict__["c09_below"] = ents
+        return I.new_list(ents, name)
+
+    def color_and_fade(I, env, a, k):
+        items = [I.force(x).ref for x in I.container(I.force(a[0]).ref).items]
+        emit(I, "color_of", items=items)
+        return VTuple([I.fresh(ObjS("ColorV"), I.fresh_name("color")), VInt(0), VBool(True)])
+    C.cls("Light", file=LIGHT, bases=["SystemWideDevice", "DevicePositionMixin"], check_bases=False,
+          fields=dict(stack=Init(stack), _off_color=ObjS("ColorV")))
+    C.ext("Light._get_color_and_fade", model=color_and_fade,
+          trusted_reason="Light._get_color_and_fade(stack, max_fade): colour of the given layers (C09 stack target set)")
+
+    def from_beneath(I, priority, key):
+        ents = [e.ref for e in I.__dict__.get("c09_below", [])]
+        evs = events_named(I, "color_of")
+        p, k = I.force(priority).t, I.force(key).t
+        if not ents:
+            return VBool(len(evs) == 0 and I.force(I.result).ref is I.force(I.read_field(I.frames[0].env["self"].ref,
+                                                                                          "_off_color")).ref)
+        if len(evs) != 1:
+            return VBool(False)
+        got = evs[0].args["items"]
+
+        def at_or_below(e):
+            ep, ek = I.force(I.read_field(e, "priority")).t, I.force(I.read_field(e, "key")).t
+            return z3.Or(ep < p, z3.And(ep == p, z3.Or(ek < k, ek == k)))
+        cases = []
+        for i in range(len(ents) + 1):
+            cond = z3.And([z3.Not(at_or_below(e)) for e in ents[:i]] + ([at_or_below(ents[i])] if i < len(ents) else []))
+            want = ents[i:]
+            cases.append(z3.And(cond, z3.BoolVal(len(got) == len(want) and all(x is y for x, y in zip(got, want)))))
+        return VBool(z3.Or(cases))
+    C.helpers["from_beneath"] = from_beneath
+    C.trace_helpers = {"from_beneath"}
+    C.finite_checks.append(common.native_demo_check(
+        "c09_fade_in_over_lower_priority_greater_key.py",
+        "a fade-in over a lower-priority layer whose key sorts after the new key starts from that layer's colour"))
+    C.assume("A-KEYORDER: get_color_below only compares keys (<=, ==); keys are modelled as integers with the same order")
+    C.fn("Light.get_color_below", params=dict(priority=Int, key=Int),
+         loops={0: LoopSpec(invariant=[], unroll=True)},
+         ensures=[("GB1: the colour beneath (priority, key) is the colour of exactly the layers at or below that position in "
+                   "the stack's order - priority first, key second: a lower-priority layer counts whatever its key is (a "
+                   "fade-in over 'z_base' by 'a_show' starts from z_base's colour, not from black)",
+                   "from_beneath(priority, key)")],
+         modifies=[], raises={}, bounded="BOUNDED: stacks of at most %d layers" % NL)
     return C
 
 
